@@ -39,4 +39,6 @@ def run(prog, rep, tier):
     apply(rep, "Q1", "word implementations keep no state of their own: no mutable members, no writes to static-storage variables (incl. function-local statics), no parameter-dependent local statics - a word's result depends only on its operands, not on what was evaluated before",
           ([i for i in q[0] if i[0].startswith(("Q1i:", "Q1ii", "Q1iii"))], [f for f in q[1] if f["key"].startswith(("Q1i:", "Q1ii", "Q1iii"))]), 3)
     apply(rep, "Q4c", "copies of a sequence (dup, over, reading a name) never alias storage that `add` mutates in place: word results depend on the values, not on how the stack was built", r_pure.q4c(prog), 3)
+    import r_core as _rc8
+    apply(rep, "P8", "copies keep their position: clone () of every value class interpreted with marker fields", _rc8.p8(prog), 10)
     maybe_mutants("C11", rep, tier)
